@@ -192,6 +192,31 @@ class Run:
         shutil.rmtree(d, ignore_errors=True)
         return rec
 
+    def tlaps_proof(self, module, timeout=600):
+        """Machine-checked proof (tlapm) of a theorem of a small specification with unbounded parameters. Supplementary:
+        the result is recorded in the evidence and never decides (back-end provers can time out under load)."""
+        exe = shutil.which("tlapm")
+        rec = {"module": module, "tool": "tlapm"}
+        self.cov.setdefault("proofs", []).append(rec)
+        if not exe:
+            rec["result"] = "skipped: tlapm not on PATH"
+            return rec
+        d = os.path.join(self.work, "tlaps_" + module.replace(".tla", ""))
+        os.makedirs(d, exist_ok=True)
+        shutil.copy(os.path.join(SPEC, module), d)
+        t = time.time()
+        try:
+            p = subprocess.run([exe, "--threads", "8", module], cwd=d, stdout=subprocess.PIPE, stderr=subprocess.STDOUT, text=True, timeout=timeout)
+            m = re.search(r"All (\d+) obligations proved", p.stdout)
+            f = re.search(r"(\d+)/(\d+) obligations failed", p.stdout)
+            rec["result"] = ("proved: all %s obligations" % m.group(1)) if m else \
+                            ("unproved: %s of %s obligations" % (f.group(1), f.group(2))) if f else "skipped: tlapm failed (rc=%d)" % p.returncode
+        except subprocess.TimeoutExpired:
+            rec["result"] = "skipped: timeout"
+        rec["wall_s"] = round(time.time() - t, 1)
+        shutil.rmtree(d, ignore_errors=True)
+        return rec
+
     def tlc_gen(self, module, cfg, num, depth, name="gen", seed=None, timeout=900, consts=None):
         """Simulate the specification; the cfg's CONSTRAINT dumps each behaviour's history as JSON into
         ./out/.  Returns the list of behaviours (each a list of op records)."""
